@@ -301,6 +301,12 @@ def compare_status(tag, wt, viol, stats, H=None):
     if (gs, gu, gt) != (ms, mu, mt):
         # the model and C git disagree (racy timestamps, directory/file edge): not dulwich's problem -> inconclusive
         stats["inconclusive_model_vs_git"] = stats.get("inconclusive_model_vs_git", 0) + 1
+        try:
+            d3 = dul_status(wt)
+            side = "model" if d3 == (ms, mu, mt) else ("git" if d3 == (gs, gu, gt) else "neither")
+        except Exception:
+            side = "raised"
+        stats["inconclusive_dulwich_sides_with_" + side] = stats.get("inconclusive_dulwich_sides_with_" + side, 0) + 1
         return False
     try:
         ds, du, dt = dul_status(wt)
@@ -615,6 +621,29 @@ def run_case(case):
             if viol:
                 viol[-1]["edits"] = list(edits_done)
                 break
+    # ---------------- R3: reset --hard from whatever state the edits left restores every tracked path
+    if not viol:
+        try:
+            porcelain.reset(wt, "hard", b"HEAD")
+            refused = None
+        except (MemoryError, RecursionError):
+            raise
+        except Exception as ex:
+            refused = type(ex).__name__       # an untracked file or directory in the way is a legitimate refusal
+            stats["reset_hard_refused_" + refused] = stats.get("reset_hard_refused_" + refused, 0) + 1
+        if refused is None:
+            H = git_tree(wt, "HEAD")
+            W = walk_disk(wt)
+            stats["reset_hard_restores_checked"] = stats.get("reset_hard_restores_checked", 0) + 1
+            badp = sorted(p for p in H if W.get(p) != H[p] and H[p][0] != 0o160000)
+            if badp:
+                p0 = badp[0]
+                how_ = "missing" if p0 not in W else ("mode" if W[p0][1] == H[p0][1] else ("type" if (W[p0][0] == 0o120000) != (H[p0][0] == 0o120000) else "content"))
+                viol.append({"sig": "C18/reset-hard/tracked-path-not-restored/%s/%s" % (how_, name_class(p0)), "paths": [core.short(p, 60) for p in badp[:4]], "edits": list(edits_done)})
+            else:
+                compare_status("after-reset-hard", wt, viol, stats)
+                if viol:
+                    viol[-1]["edits"] = list(edits_done)
     # ---------------- B: all ordered pairs of trees (clean switches)
     if not viol and case.get("pairs", True):
         try:
